@@ -25,6 +25,13 @@ def run(ctx: Ctx):
     )
     ctx.assumptions = ["counts are non-negative (a sum of bases is zero exactly when every base is)"]
     provenance(ctx)
+    # "emptiness is decided from unweighted counts only": what `Cube.unweighted_counts` hands out is never a weighted measure,
+    # whichever helper resolves the valid-counts cascade (decision table over the count measures present)
+    from . import c16
+
+    c16.count_cascade(ctx, "provenance.count-source", "unweighted_counts", ["unweighted_valid_counts", "unweighted_counts"],
+                      "unweighted valid counts, else the response's unweighted counts (never a weighted measure)",
+                      "a vector of zero-weight respondents has a positive unweighted count: it is not empty")
     layouts(ctx)
     hidden_set(ctx)
     subtotal_rule(ctx)
@@ -36,6 +43,9 @@ def run(ctx: Ctx):
     from .common import generic_lints
 
     generic_lints(ctx)
+    from .common import shim_leaves_transforms_alone
+
+    shim_leaves_transforms_alone(ctx)
     from .common import subtotal_free_types
 
     subtotal_free_types(ctx)
